@@ -17,7 +17,7 @@ ASSUMPTIONS = [
     "'error while handling a message' is produced by a routing.Device whose message_from_client raises for a marker request (Driver-level value errors are contained since the C12 fixes)",
     "exceptions retrieved-never of send tasks writing to a reset peer are counted, not judged",
 ]
-FAULTS = ("eof", "read-error", "eof-in-message", "junk-then-eof", "handler-exception", "peer-reset")
+FAULTS = ("eof", "read-error", "eof-in-message", "junk-then-eof", "handler-exception", "peer-reset", "write-error-then-eof", "write-error-then-reset")
 POLICY = {0: "Also", 1: "Only", 2: None}
 
 
@@ -137,6 +137,12 @@ class Sess:
                 ep.feed(b'<getProperties version="1.7" name="BOOM"/>')
             elif fault == "peer-reset":
                 ep.transport.lose(ConnectionResetError("peer reset"))
+            elif fault in ("write-error-then-eof", "write-error-then-reset"):
+                # phase 1: from now on every write to this peer fails; the connection itself ends later (finish_fault)
+                ep.transport.fail_writes = ConnectionResetError("injected write error")
+                c["pending_end"] = fault
+                self.pump()
+                return True
         else:
             src = c["src"]
             if fault == "eof":
@@ -153,11 +159,24 @@ class Sess:
                 src.supply("")
             elif fault == "handler-exception":
                 src.supply('<getProperties version="1.7" name="BOOM"/>\n')
-            elif fault == "peer-reset":
+            elif fault in ("peer-reset", "write-error-then-eof", "write-error-then-reset"):
                 return False
         self.pump()
         c["ended"] = True
         return True
+
+    def finish_fault(self, c):
+        """phase 2 of the two-phase faults: the connection whose writes failed now ends"""
+        end = c.pop("pending_end", None)
+        if end is None:
+            return
+        ep = c["link"].server_ep
+        if end == "write-error-then-eof":
+            ep.eof()
+        else:
+            ep.transport.lose(ConnectionResetError("peer reset"))
+        self.pump()
+        c["ended"] = True
 
     def close(self):
         self.w.close()
@@ -212,6 +231,7 @@ def run(transport, fault, victim, step):
         if not injected:
             return [], False
         s.pump()
+        s.finish_fault(vconn)
         # --- after the end of the victim's connection
         marks = {id(c): len(s.output(c)) for c in conns}
         dev.g.t.a.value = "AFTER-TEXT"
@@ -281,7 +301,7 @@ def shards(tier, seed):
     sh = []
     for transport in ("tcp", "tty"):
         for fault in FAULTS:
-            if transport == "tty" and fault == "peer-reset":
+            if transport == "tty" and fault in ("peer-reset", "write-error-then-eof", "write-error-then-reset"):
                 continue
             sh.append((tier, transport, fault))
     return sh
